@@ -117,7 +117,8 @@ def sizes(tier):
     # (lines, bytes per line, words): 0 B, ~100 B, multi-write, 64 KiB, (thorough) 1 MiB outputs and long bitstreams
     base = [(0, 0, 0), (1, 60, 3), (3, 100, 10), (40, 200, 30), (1, 65536, 5), (200, 10, 2)]
     if tier == "thorough":
-        base += [(1, 1 << 20, 5), (2000, 40, 3), (5, 5, 2000), (300, 3000, 100)]
+        base += [(1, 1 << 20, 5), (2000, 40, 3), (5, 5, 2000), (300, 3000, 100), (2, 30, 0), (0, 0, 1), (64, 4096, 64), (3, 70000, 7), (1, 4095, 1), (1, 4096, 1),
+                 (1, 4097, 1), (7, 7, 7), (1000, 1, 0), (16, 65535, 3), (50, 500, 500), (1, 200000, 0)]
     return base
 
 
